@@ -72,7 +72,8 @@ fn explode_function(
             parameter.unwrap_or_else(|| network.add_parameter(name_prefix.as_str(), 0).unwrap());
         FnUpdate::Param(parameter, Vec::new())
     } else {
-        let regulator = regulators[0].clone();
+        // The argument itself can contain uninterpreted functions (e.g. `f(g(b))`).
+        let regulator = flatten_fn_update(network, &regulators[0]);
         let true_branch = explode_function(network, &regulators[1..], format!("{name_prefix}1"));
         let false_branch = explode_function(network, &regulators[1..], format!("{name_prefix}0"));
         regulator
